@@ -329,6 +329,16 @@ class C07(Prop):
         return to_doc(fmt, obj.dumps())
 
     def cases(self, rng, tier, budget):
+        quota = [25]
+        for c in self._cases(rng, tier, budget):
+            # the known finding F15 is met a bounded number of times per run (checklib stops consuming after 50 failures, known or not)
+            if self.trailing_nl(c):
+                quota[0] -= 1
+                if quota[0] < 0:
+                    continue
+            yield c
+
+    def _cases(self, rng, tier, budget):
         T = self.T()
         n = i = 0
         while n < budget:
